@@ -18,7 +18,15 @@ RULE = (
     "normtype 1/2/inf, mode; component permutation as list/tuple/ndarray; index subset in any order; reference tensor "
     "built by flipping chosen modes of chosen components, rescaled, lower rank or independent); oracle = einsum of "
     "weights and factors before vs after (rigorous rounding bound, exact where only data moves), the promised normal "
-    "form recomputed with numpy, exact round trips.  Non-trivial: a negative or zero weight, rank >= 2 and order >= 3."
+    "form recomputed with numpy, exact round trips.  Non-trivial: a negative or zero weight, rank >= 2 and order >= 3.  "
+    "Round 2: the operand of every cell reaches its state through a drawn provenance (_c08_helpers.operand): "
+    "constructor, A + B, extract from a larger tensor, mode permutation, ttv of a tensor with one more mode (these give "
+    "exactly the case's attributes), or normalize() (exactly unit columns) optionally negated / times -2 (negative "
+    "weights on unit columns), normalize(weight_factor=..) (unit weights, C-ordered factors), weights or one factor "
+    "scaled by 1e+6 / 1e-6 (effective case read back from the object); weights include exact ties (equal magnitudes, "
+    "duplicated columns); integer arguments are numpy.int64 one time in four where pyttb accepts them; component / "
+    "mode index collections are lists, tuples, ndarrays (int64 / int32) and lists of numpy integers; normalize, "
+    "arrange, redistribute and extract are called a second time on the same object."
 )
 ASSUMPTIONS = [
     "denoted array = einsum('r,ar,br,...', weights, factors) on the public attributes (ref.den_kruskal)",
@@ -28,6 +36,14 @@ ASSUMPTIONS = [
     "fixsigns(other): references have the same shape and at most as many components as self (the loop runs over the "
     "reference's components)",
     "score: inputs without zero columns when a score of exactly one is expected; slack 1e-9",
+    "integer dtypes do not apply: the ktensor constructor and from_vector reject non-float64 weights / factor "
+    "matrices (documented dtype=float); numpy integer *scalars* are rejected by extract(idx), tolist(mode) and "
+    "K * scalar (documented as int / scalar) and are therefore only passed to normalize(weight_factor, mode), "
+    "arrange(weight_factor), redistribute(mode) and update(modes), which accept them",
+    "a second identical call must leave the denoted array and the normal form intact; only redistribute (weights "
+    "already one) and arrange(permutation) (composition of the permutation) are required to be exact",
+    "fixsigns(other) and score use attribute-preserving provenances only (their references are derived from the "
+    "case's factor matrices)",
 ]
 
 EPS = ref.EPS
@@ -71,12 +87,13 @@ def _normalize_case(draw, tier):
     wf = draw(st.sampled_from(["none", "none", "k", "k", "all"]))
     c["weight_factor"] = None if wf == "none" else ("all" if wf == "all" else draw(st.integers(0, N - 1)))
     c["mode"] = draw(st.integers(0, N - 1)) if draw(st.integers(0, 4)) == 0 else None
+    c["npint"] = draw(st.integers(0, 3)) == 0  # integer arguments as numpy.int64
     return c
 
 
 @cell("C08/normalize", strategy=_normalize_case, quick=1400, thorough=12000, shards=(2, 12))
 def normalize(ctx, case):
-    K = gen.build_ktensor(case)
+    K, case = H.operand(ctx, case)
     F0, w0 = H.fms_of(case), H.w_of(case)
     N, R = len(case["shape"]), case["rank"]
     ord_ = H.NORMS[case["normtype"]]
@@ -85,28 +102,44 @@ def normalize(ctx, case):
     ctx.label(*H.kt_labels(case), "norm-" + case["normtype"],
               "wf-" + ("none" if wf is None else ("all" if wf == "all" else "k")),
               "sort" if sort else "nosort", "mode-given" if mode is not None else "mode-none")
+    npi = bool(case.get("npint"))
+    if npi and (isinstance(wf, int) or mode is not None):
+        ctx.label("numpy-int-argument")
     with ctx.sut("ktensor.normalize"):
-        Rt = K.normalize(weight_factor=wf, sort=sort, normtype=ord_, mode=mode)
+        Rt = K.normalize(weight_factor=H.np_int(wf, npi), sort=sort, normtype=ord_, mode=H.np_int(mode, npi))
     ctx.check(Rt is K, "normalize-returns-self")
     _structure(ctx, K, case)
     _den_ok(ctx, K, case, "normalize-den-unchanged")
+    _normalize_form(ctx, K, case, F0, w0, "")
+    # the same call again on the same object: still the same array, still the normal form
+    with ctx.sut("ktensor.normalize-again"):
+        K.normalize(weight_factor=wf, sort=sort, normtype=ord_, mode=mode)
+    _structure(ctx, K, case)
+    _den_ok(ctx, K, case, "normalize-again-den-unchanged", extra_terms=case["rank"] * (len(case["shape"]) + 4))
+    _normalize_form(ctx, K, case, F0, w0, "again-")
+
+
+def _normalize_form(ctx, K, case, F0, w0, tag):
+    N, R = len(case["shape"]), case["rank"]
+    ord_ = H.NORMS[case["normtype"]]
+    wf, sort, mode = case["weight_factor"], case["sort"], case["mode"]
     if mode is not None:
         ok, nrm = _unit_cols(K.factor_matrices[mode], ord_)
-        ctx.check(ok, "normalize-mode-unit-columns", nrm)
+        ctx.check(ok, f"normalize-{tag}mode-unit-columns", nrm)
         same = all(np.array_equal(K.factor_matrices[k], F0[k]) for k in range(N) if k != mode)
-        ctx.check(same, "normalize-mode-leaves-other-factors")
+        ctx.check(same, f"normalize-{tag}mode-leaves-other-factors")
         return
-    ctx.check(bool((K.weights >= 0).all()), "normalize-weights-nonnegative", K.weights)
+    ctx.check(bool((K.weights >= 0).all()), f"normalize-{tag}weights-nonnegative", K.weights)
     if wf is None:
         for k in range(N):
             ok, nrm = _unit_cols(K.factor_matrices[k], ord_)
-            ctx.check(ok, "normalize-unit-columns", (k, nrm))
+            ctx.check(ok, f"normalize-{tag}unit-columns", (k, nrm))
         # a zero column anywhere kills the component: its weight must be zero
         for r in range(R):
             if any((K.factor_matrices[k][:, r] == 0).all() for k in range(N)):
-                ctx.check(K.weights[r] == 0, "normalize-zero-column-zero-weight", (r, K.weights))
+                ctx.check(K.weights[r] == 0, f"normalize-{tag}zero-column-zero-weight", (r, K.weights))
         if sort:
-            ctx.check(bool((np.diff(K.weights) <= 0).all()), "normalize-sorted-nonincreasing", K.weights)
+            ctx.check(bool((np.diff(K.weights) <= 0).all()), f"normalize-{tag}sorted-nonincreasing", K.weights)
         # the weights are the product of the column norms times |w| (as a multiset when sorted)
         expect = np.abs(w0)
         for k in range(N):
@@ -114,21 +147,21 @@ def normalize(ctx, case):
         got = np.sort(K.weights) if sort else K.weights
         exp = np.sort(expect) if sort else expect
         ctx.check(np.allclose(got, exp, rtol=64 * EPS * (max(case["shape"]) + N + 2), atol=0),
-                  "normalize-weights-are-norm-products", (got, exp))
+                  f"normalize-{tag}weights-are-norm-products", (got, exp))
     else:
-        ctx.check(bool((K.weights == 1).all()), "normalize-absorbed-weights-all-one", K.weights)
+        ctx.check(bool((K.weights == 1).all()), f"normalize-{tag}absorbed-weights-all-one", K.weights)
         if wf != "all":
             for k in range(N):
                 if k != wf:
                     ok, nrm = _unit_cols(K.factor_matrices[k], ord_)
-                    ctx.check(ok, "normalize-unit-columns", (k, nrm))
+                    ctx.check(ok, f"normalize-{tag}unit-columns", (k, nrm))
         else:
             # equal share: every factor's column r has the same norm
             nr = np.array([H.colnorms(K.factor_matrices[k], ord_) for k in range(N)])
             zero = np.array([[(K.factor_matrices[k][:, r] == 0).all() for r in range(R)] for k in range(N)])
             spread = np.where(zero.any(axis=0), 0.0, nr.max(axis=0) - nr.min(axis=0))
             ctx.check(bool((spread <= 1e-12 * np.maximum(nr.max(axis=0), 1e-300)).all()),
-                      "normalize-all-equal-share", nr)
+                      f"normalize-{tag}all-equal-share", nr)
 
 
 # --------------------------------------------------------------------------
@@ -147,17 +180,28 @@ def _arrange_case(draw, tier):
     if v == "permutation":
         c["perm"] = list(draw(st.permutations(range(R))))
         # tuples hit known finding C08-K2 every time: kept at a reduced rate only to keep counting them
-        c["perm_form"] = draw(st.sampled_from(["list", "list", "list", "ndarray", "ndarray", "ndarray", "tuple"]))
+        c["perm_form"] = draw(st.sampled_from(["list", "list", "ndarray", "ndarray", "tuple", "tuple", "npint-list",
+                                               "int32"]))
+    c["npint"] = draw(st.integers(0, 3)) == 0
     return c
 
 
 def _perm_arg(p, form):
-    return list(p) if form == "list" else (tuple(p) if form == "tuple" else np.array(p, dtype=int))
+    """component / mode indices in one of the accepted spellings (Tuple, List, ndarray; entries python or numpy ints)"""
+    if form == "list":
+        return list(p)
+    if form == "tuple":
+        return tuple(p)
+    if form == "npint-list":
+        return [np.int64(i) for i in p]
+    if form == "int32":
+        return np.array(p, dtype=np.int32)
+    return np.array(p, dtype=int)
 
 
 @cell("C08/arrange", strategy=_arrange_case, quick=1200, thorough=14000, shards=(2, 12))
 def arrange(ctx, case):
-    K = gen.build_ktensor(case)
+    K, case = H.operand(ctx, case)
     F0, w0 = H.fms_of(case), H.w_of(case)
     N, R = len(case["shape"]), case["rank"]
     v = case["variant"]
@@ -172,14 +216,37 @@ def arrange(ctx, case):
         ok = np.array_equal(K.weights, w0[p]) and all(np.array_equal(K.factor_matrices[k], F0[k][:, p]) for k in range(N))
         ctx.check(ok, "arrange-permutation-moves-columns-exactly", (K.weights, w0[p]))
         _den_ok(ctx, K, case, "arrange-den-unchanged")
+        # the same permutation applied again to the same object composes
+        with ctx.sut("ktensor.arrange-permutation-again"):
+            K.arrange(permutation=np.array(p))
+        _structure(ctx, K, case)
+        pp = [p[i] for i in p]
+        ok = np.array_equal(K.weights, w0[pp]) and all(np.array_equal(K.factor_matrices[k], F0[k][:, pp]) for k in range(N))
+        ctx.check(ok, "arrange-permutation-again-moves-columns-exactly", (K.weights, w0[pp]))
         return
+    npi = bool(case.get("npint"))
+    if npi and v == "weight_factor":
+        ctx.label("numpy-int-argument")
     with ctx.sut("ktensor.arrange"):
         if v == "plain":
             K.arrange()
         else:
+            K.arrange(weight_factor=H.np_int(case["weight_factor"], npi))
+    _arrange_form(ctx, K, case, F0, w0, "")
+    # the same call again on the same object
+    with ctx.sut("ktensor.arrange-again"):
+        if v == "plain":
+            K.arrange()
+        else:
             K.arrange(weight_factor=case["weight_factor"])
+    _arrange_form(ctx, K, case, F0, w0, "again-")
+
+
+def _arrange_form(ctx, K, case, F0, w0, tag):
+    N, R = len(case["shape"]), case["rank"]
+    v = case["variant"]
     _structure(ctx, K, case)
-    _den_ok(ctx, K, case, "arrange-den-unchanged")
+    _den_ok(ctx, K, case, f"arrange-{tag}den-unchanged", extra_terms=(R * (N + 4) if tag else 0))
     expect = np.abs(w0)
     for k in range(N):
         expect = expect * H.colnorms(F0[k], 2)
@@ -187,22 +254,22 @@ def arrange(ctx, case):
     if v == "plain":
         for k in range(N):
             ok, nrm = _unit_cols(K.factor_matrices[k], 2)
-            ctx.check(ok, "arrange-unit-columns", (k, nrm))
-        ctx.check(bool((K.weights >= 0).all()), "arrange-weights-nonnegative", K.weights)
-        ctx.check(bool((np.diff(K.weights) <= 0).all()), "arrange-sorted-nonincreasing", K.weights)
+            ctx.check(ok, f"arrange-{tag}unit-columns", (k, nrm))
+        ctx.check(bool((K.weights >= 0).all()), f"arrange-{tag}weights-nonnegative", K.weights)
+        ctx.check(bool((np.diff(K.weights) <= 0).all()), f"arrange-{tag}sorted-nonincreasing", K.weights)
         ctx.check(np.allclose(K.weights, np.sort(expect)[::-1], rtol=rtol, atol=0),
-                  "arrange-weights-are-sorted-norm-products", (K.weights, expect))
+                  f"arrange-{tag}weights-are-sorted-norm-products", (K.weights, expect))
     else:
         k0 = case["weight_factor"]
-        ctx.check(bool((K.weights == 1).all()), "arrange-absorbed-weights-all-one", K.weights)
+        ctx.check(bool((K.weights == 1).all()), f"arrange-{tag}absorbed-weights-all-one", K.weights)
         for k in range(N):
             if k != k0:
                 ok, nrm = _unit_cols(K.factor_matrices[k], 2)
-                ctx.check(ok, "arrange-unit-columns", (k, nrm))
+                ctx.check(ok, f"arrange-{tag}unit-columns", (k, nrm))
         # the absorbing factor carries the sorted magnitudes (when no other factor has a zero column there)
         mags = H.colnorms(K.factor_matrices[k0], 2)
         ctx.check(np.allclose(mags, np.sort(expect)[::-1], rtol=rtol, atol=0),
-                  "arrange-absorbed-magnitudes-sorted", (mags, expect))
+                  f"arrange-{tag}absorbed-magnitudes-sorted", (mags, expect))
 
 
 # --------------------------------------------------------------------------
@@ -235,7 +302,7 @@ def _fixsigns_alone_case(draw, tier):
 
 @cell("C08/fixsigns/alone", strategy=_fixsigns_alone_case, quick=1200, thorough=14000, shards=(2, 12))
 def fixsigns_alone(ctx, case):
-    K = gen.build_ktensor(case)
+    K, case = H.operand(ctx, case)
     F0, w0 = H.fms_of(case), H.w_of(case)
     N, R = len(case["shape"]), case["rank"]
     negs = [sum(_strictly_negative_led(F0[k][:, r]) for k in range(N)) for r in range(R)]
@@ -279,7 +346,7 @@ def fixsigns_alone(ctx, case):
 
 @st.composite
 def _fixsigns_ref_case(draw, tier):
-    c = draw(H.kt(tier))
+    c = draw(H.kt(tier, prov="preserving"))
     N, R = len(c["shape"]), c["rank"]
     kind = draw(st.sampled_from(["flip", "flip", "flip-rescale", "lower-rank-flip", "independent"]))
     c["ref_kind"] = kind
@@ -322,7 +389,7 @@ def _odd_negative_correlations(case):
 
 @cell("C08/fixsigns/reference", strategy=_fixsigns_ref_case, quick=1600, thorough=12000, shards=(2, 12))
 def fixsigns_reference(ctx, case):
-    K = gen.build_ktensor(case)
+    K, case = H.operand(ctx, case)
     oc = _other(case)
     O = gen.build_ktensor(oc)
     N, R, RB = len(case["shape"]), case["rank"], oc["rank"]
@@ -367,18 +434,21 @@ def fixsigns_reference(ctx, case):
 def _redistribute_case(draw, tier):
     c = draw(H.kt(tier))
     c["mode"] = draw(st.integers(0, len(c["shape"]) - 1))
+    c["npint"] = draw(st.integers(0, 3)) == 0
     return c
 
 
 @cell("C08/redistribute", strategy=_redistribute_case, quick=800, thorough=8000, shards=(1, 8))
 def redistribute(ctx, case):
-    K = gen.build_ktensor(case)
+    K, case = H.operand(ctx, case)
     F0, w0 = H.fms_of(case), H.w_of(case)
     N, m = len(case["shape"]), case["mode"]
     ctx.nt = H.kt_nt(case)
     ctx.label(*H.kt_labels(case), "mode-first" if m == 0 else ("mode-last" if m == N - 1 else "mode-middle"))
+    if case.get("npint"):
+        ctx.label("numpy-int-argument")
     with ctx.sut("ktensor.redistribute"):
-        Rt = K.redistribute(m)
+        Rt = K.redistribute(H.np_int(m, bool(case.get("npint"))))
     ctx.check(Rt is K, "redistribute-returns-self")
     _structure(ctx, K, case)
     ctx.check(bool((K.weights == 1).all()), "redistribute-weights-exactly-one", K.weights)
@@ -386,6 +456,17 @@ def redistribute(ctx, case):
               "redistribute-other-factors-bit-identical")
     ctx.check(np.array_equal(K.factor_matrices[m], F0[m] * w0[None, :]), "redistribute-mode-factor-is-column-times-weight")
     _den_ok(ctx, K, case, "redistribute-den-unchanged")
+    # again on the same object, same mode: the weights are one already, nothing may change; then into another mode:
+    # still the same array (the weights stay in the first mode)
+    snap = [f.copy() for f in K.factor_matrices]
+    with ctx.sut("ktensor.redistribute-again"):
+        K.redistribute(m)
+    ctx.check(bool((K.weights == 1).all()) and all(np.array_equal(a, b) for a, b in zip(K.factor_matrices, snap)),
+              "redistribute-again-changes-nothing")
+    with ctx.sut("ktensor.redistribute-again"):
+        K.redistribute((m + 1) % N)
+    ctx.check(bool((K.weights == 1).all()) and all(np.array_equal(a, b) for a, b in zip(K.factor_matrices, snap)),
+              "redistribute-other-mode-afterwards-changes-nothing")
 
 
 # --------------------------------------------------------------------------
@@ -397,7 +478,7 @@ def redistribute(ctx, case):
 def _extract_case(draw, tier):
     c = draw(H.kt(tier))
     R = c["rank"]
-    form = draw(st.sampled_from(["list", "tuple", "ndarray", "int", "none"]))
+    form = draw(st.sampled_from(["list", "tuple", "ndarray", "int", "none", "npint-list", "int32"]))
     c["idx_form"] = form
     if form == "int":
         c["idx"] = [draw(st.integers(0, R - 1))]
@@ -410,7 +491,7 @@ def _extract_case(draw, tier):
 
 @cell("C08/extract", strategy=_extract_case, quick=800, thorough=8000, shards=(1, 8))
 def extract(ctx, case):
-    K = gen.build_ktensor(case)
+    K, case = H.operand(ctx, case)
     F0, w0 = H.fms_of(case), H.w_of(case)
     N, idx, form = len(case["shape"]), case["idx"], case["idx_form"]
     ctx.nt = H.kt_nt(case) and 1 <= len(idx) < case["rank"] or (H.kt_nt(case) and idx != sorted(idx))
@@ -430,6 +511,17 @@ def extract(ctx, case):
     # the source still denotes the same array
     ctx.check(np.array_equal(K.weights, w0) and all(np.array_equal(a, b) for a, b in zip(K.factor_matrices, F0)),
               "extract-leaves-source")
+    # the result is independent of the source: editing it in place (a re-parameterisation) leaves the source alone,
+    # and extracting again gives the first answer again
+    with ctx.sut("ktensor.extract-then-normalize-result"):
+        E.normalize(weight_factor=0)
+    ctx.check(np.array_equal(K.weights, w0) and all(np.array_equal(a, b) for a, b in zip(K.factor_matrices, F0)),
+              "extract-result-does-not-alias-source")
+    with ctx.sut("ktensor.extract-again"):
+        E2 = K.extract(arg)
+    _structure(ctx, E2, case, rank=len(idx))
+    ok = np.array_equal(E2.weights, w0[idx]) and all(np.array_equal(E2.factor_matrices[k], F0[k][:, idx]) for k in range(N))
+    ctx.check(ok, "extract-again-selects-components-exactly")
 
 
 # --------------------------------------------------------------------------
@@ -446,7 +538,7 @@ def _vector_case(draw, tier):
 
 @cell("C08/vector-roundtrip", strategy=_vector_case, quick=800, thorough=8000, shards=(1, 8))
 def vector_roundtrip(ctx, case):
-    K = gen.build_ktensor(case)
+    K, case = H.operand(ctx, case)
     F0, w0 = H.fms_of(case), H.w_of(case)
     N, R, flag = len(case["shape"]), case["rank"], case["include_weights"]
     unit = bool((w0 == 1).all())
@@ -486,7 +578,7 @@ def _tolist_case(draw, tier):
 
 @cell("C08/list-roundtrip", strategy=_tolist_case, quick=800, thorough=8000, shards=(1, 8))
 def list_roundtrip(ctx, case):
-    K = gen.build_ktensor(case)
+    K, case = H.operand(ctx, case)
     F0, w0 = H.fms_of(case), H.w_of(case)
     N, R, m = len(case["shape"]), case["rank"], case["mode"]
     unit = bool((w0 == 1).all())
@@ -548,13 +640,14 @@ def _update_case(draw, tier):
     pool = [-1] + list(range(N))
     sel = sorted(draw(gen.mode_subset(len(pool), 1, len(pool), ordered=False)))
     c["modes"] = [pool[i] for i in sel]
-    c["modes_form"] = draw(st.sampled_from(["list", "ndarray", "scalar"] if len(sel) == 1 else ["list", "ndarray", "tuple"]))
+    c["modes_form"] = draw(st.sampled_from(["list", "ndarray", "scalar", "np-scalar", "npint-list"] if len(sel) == 1
+                                           else ["list", "ndarray", "tuple", "npint-list", "int32"]))
     return c
 
 
 @cell("C08/update", strategy=_update_case, quick=800, thorough=8000, shards=(1, 8))
 def update(ctx, case):
-    K = gen.build_ktensor(case)
+    K, case = H.operand(ctx, case)
     F0, w0 = H.fms_of(case), H.w_of(case)
     N, R = len(case["shape"]), case["rank"]
     if case["source"] == "own":
@@ -568,7 +661,7 @@ def update(ctx, case):
               "with-weights" if -1 in modes else "factors-only", f"nmodes-{min(len(modes), 3)}")
     data = np.concatenate([ws if k == -1 else Fs[k].flatten(order="F") for k in modes])
     form = case["modes_form"]
-    arg = modes[0] if form == "scalar" else _perm_arg(modes, form)
+    arg = modes[0] if form == "scalar" else (np.int64(modes[0]) if form == "np-scalar" else _perm_arg(modes, form))
     with ctx.sut("ktensor.update"):
         Rt = K.update(arg, data.copy())
     ctx.check(Rt is K, "update-returns-self")
@@ -605,7 +698,7 @@ def _algebra_case(draw, tier):
 
 @cell("C08/algebra", strategy=_algebra_case, quick=1400, thorough=14000, shards=(2, 12))
 def algebra(ctx, case):
-    K = gen.build_ktensor(case)
+    K, case = H.operand(ctx, case)
     F0, w0 = H.fms_of(case), H.w_of(case)
     N, R, op = len(case["shape"]), case["rank"], case["op"]
     A, B = H.den_case(case), H.bound_case(case)
@@ -665,7 +758,7 @@ def algebra(ctx, case):
 
 @st.composite
 def _score_case(draw, tier):
-    c = draw(H.kt(tier, max_order=3))
+    c = draw(H.kt(tier, max_order=3, prov="preserving"))
     N, R = len(c["shape"]), c["rank"]
     kind = draw(st.sampled_from(["self", "reparam-subset", "reparam-subset", "independent"]))
     c["other_kind"] = kind
@@ -700,7 +793,7 @@ def _has_dead_component(case):
 
 @cell("C08/score", strategy=_score_case, quick=1000, thorough=12000, shards=(2, 12))
 def score(ctx, case):
-    K = gen.build_ktensor(case)
+    K, case = H.operand(ctx, case)
     oc = dict(shape=case["shape"], rank=case["other"]["rank"], weights=case["other"]["weights"],
               factors=case["other"]["factors"])
     O = gen.build_ktensor(oc)
@@ -801,7 +894,7 @@ def _history_case(draw, tier):
 
 @cell("C08/history", strategy=_history_case, quick=1500, thorough=20000, shards=(2, 12))
 def history(ctx, case):
-    K = gen.build_ktensor(case)
+    K, case = H.operand(ctx, case)
     A = H.den_case(case)  # expected denoted array, updated for neg / scale / permute-modes
     B = H.bound_case(case)
     shape = list(case["shape"])
